@@ -7,3 +7,8 @@ import SpecsModel.Props.C20
 #print axioms SpecsModel.C20.observables_independent_of_any_reordering
 #print axioms SpecsModel.C20.destruction_order_only_permutes_ledger
 #print axioms SpecsModel.C20.deterministic_and_replayable_partial
+#print axioms SpecsModel.C20.marker_map_order_never_observable
+#print axioms SpecsModel.C20.marker_map_order_never_observable_seq
+#print axioms SpecsModel.C20.serialised_output_independent_of_any_reordering
+#print axioms SpecsModel.C20.SLDemo.swapFront_eqv
+#print axioms SpecsModel.C20.SLDemo.sc_eqv
